@@ -27,6 +27,8 @@ type Body struct {
 	Relative bool
 	// Heavy: many library calls in one body; the free-running pass runs it in every eighth round only
 	Heavy bool
+	// Hist: also used as a history step and probe of the sequential renderer-histories family
+	Hist bool
 }
 
 func pts(xy ...float64) []oracle.Pt {
@@ -150,6 +152,34 @@ var Bodies = []Body{
 		return p.Flatten(0.01).Dash(0.3, 1, 0.5).String()
 	}},
 	{Name: "Offset(triA)", Run: func() string { return cv.Path(triA).Offset(0.3, 0.01).String() }},
+	// curved inputs: every curve type through the flattening, arc conversion, offsetting, dashing and
+	// length code (package-level scratch space or caches there are shared by all goroutines)
+	{Name: "Flatten+ReplaceArcs+XMonotone(elliptical arcs)", Hist: true, Run: func() string {
+		p := canvas.MustParseSVGPath("M0 0A3 1 30 1 1 2 2A2 1 0 0 0 5 1Q6 3 7 1C8 -1 9 3 10 1z")
+		return p.Flatten(0.01).String() + "|" + p.ReplaceArcs().String() + "|" + p.XMonotone().String()
+	}},
+	{Name: "Stroke(curves; miter, arcs, bevel joins; square, butt caps)", Hist: true, Run: func() string {
+		p := canvas.MustParseSVGPath("M0 0Q2 3 4 0C5 -2 7 2 8 0A2 1 20 0 1 10 3L12 0")
+		return p.Stroke(0.6, canvas.SquareCap, canvas.MiterJoin, 0.01).String() + "|" +
+			p.Stroke(0.4, canvas.ButtCap, canvas.ArcsJoin, 0.01).String() + "|" +
+			p.Stroke(0.5, canvas.RoundCap, canvas.BevelJoin, 0.01).String()
+	}},
+	{Name: "Offset(ellipse, rounded rectangle)", Hist: true, Run: func() string {
+		return canvas.Ellipse(3, 1.5).Offset(0.4, 0.01).String() + "|" + canvas.RoundedRectangle(5, 3, 0.8).Offset(-0.3, 0.01).String()
+	}},
+	{Name: "Dash+SplitAt+Length(arcs and Beziers)", Hist: true, Run: func() string {
+		p := canvas.MustParseSVGPath("M0 0C1 2 3 -2 4 0A2 1 30 1 1 6 2Q7 4 8 2z")
+		s := p.Dash(0.3, 1, 0.5, 0.2).String()
+		for _, q := range p.SplitAt(1.5, 4.25, 9) {
+			s += "|" + q.String()
+		}
+		return s + fmt.Sprintf("|%.12g", p.Length())
+	}},
+	{Name: "And/Or/Settle(circle, rotated ellipse)", Hist: true, Run: func() string {
+		a := canvas.Circle(2)
+		b := canvas.Ellipse(3, 1).Transform(canvas.Identity.Translate(1, 0.5).Rotate(30))
+		return a.And(b).String() + "|" + a.Or(b).String() + "|" + a.Append(b).Settle(canvas.EvenOdd).String()
+	}},
 }
 
 // PoolUsers is the number of leading bodies that go through the sweep-line pools.
